@@ -151,6 +151,9 @@ func c09Server(p *ana.Prog, r *ana.Result, name string, scion bool) {
 	if scion {
 		payloadPath = "udpLayer.Payload"
 	}
+	if !scion {
+		c09Drops(p, r, fn, rd, isReply, isPayload)
+	}
 	errRead := extractOf(rd, 4)
 	flags := extractOf(rd, 2)
 	if errRead == nil || flags == nil {
